@@ -35,8 +35,8 @@ const (
 	// upper element is deleted before the lower one is put (15.4.4.8 step 6.i
 	// puts first); observable when one of the two operations throws.
 	DevReverseDeleteFirst
-	// DevReturnsThisValue: reverse returns the original this value instead of
-	// the result of ToObject(this) (15.4.4.8 step 7).
+	// DevReturnsThisValue: reverse and sort return the original this value
+	// instead of the result of ToObject(this) (15.4.4.8 step 7, 15.4.4.11).
 	DevReturnsThisValue
 	// DevLastIndexOf: lastIndexOf has no "len is 0 -> -1" exit before fromIndex
 	// is converted, and clamps fromIndex with > len instead of >= len, so the
